@@ -3,6 +3,8 @@ pub mod c03;
 pub mod c04;
 pub mod c05;
 pub mod c06;
+pub mod c07;
+pub mod c12;
 pub mod c16;
 pub mod c19;
 pub mod c20;
@@ -20,5 +22,8 @@ pub fn all() -> Vec<Entry> {
         Entry { scn: &c06::C06Registry, quick_runs: 20_000, thorough_runs: 3_000_000 },
         Entry { scn: &c03::C03Key, quick_runs: 60_000, thorough_runs: 3_000_000 },
         Entry { scn: &c19::C19Debugging, quick_runs: 20_000, thorough_runs: 2_000_000 },
+        Entry { scn: &c07::C07Prometheus, quick_runs: 12_000, thorough_runs: 1_000_000 },
+        Entry { scn: &c12::C12Recency, quick_runs: 60_000, thorough_runs: 3_000_000 },
+        Entry { scn: &c12::C12PromIdle, quick_runs: 30_000, thorough_runs: 2_000_000 },
     ]
 }
